@@ -66,6 +66,9 @@ def shard_fn(shard, nshards, seed, tier, exe, ntexts, ntrees):
             if mode == 2 and b"\0" in t:
                 mode = 1
             cmds.append("LP %d %d %d x%s" % (flags, depth, mode, t.hex()))
+            if len(cmds) % 5 == 0:
+                # the same text through a tokener that is older than the locale configuration (created, and every other time used, under "C")
+                cmds.append("LPT %d %d %d x%s %d" % (flags, depth, mode, t.hex(), (len(cmds) // 5) % 2))
             if mode == 1 and (len(cmds) % 3) == 0:
                 # the same text fed incrementally: numbers straddle calls, every call is monitored
                 cmds.append("LPC %d %d %d x%s" % (flags, depth, (1 + (len(cmds) // 3) % 7) * (-1 if (len(cmds) // 3) % 2 and b"\0" not in t else 1), t.hex()))
@@ -106,7 +109,7 @@ def shard_fn(shard, nshards, seed, tier, exe, ntexts, ntrees):
             raise core.Inconclusive("locale configuration %s not in effect: %s (LOCPATH=%s)" % (CONFIGS[cfg], lines[0], locale_synth.LOCDIR))
         for ci, (cmd, ln, bl) in enumerate(zip(cmds[1:-1], lines[1:-1], base[1:-1]), 1):
             op = cmd.split()[0]
-            if op not in ("LP", "LS", "LPC"):
+            if op not in ("LP", "LS", "LPC", "LPT"):
                 continue
             sh.evaluations += 1
             pre = []
@@ -124,13 +127,13 @@ def shard_fn(shard, nshards, seed, tier, exe, ntexts, ntrees):
             same, fmt, sd, live, created, freed, foreign = map(int, m.groups())
             key = None
             what = ""
-            if op in ("LP", "LPC"):
+            if op in ("LP", "LPC", "LPT"):
                 err = int(res.split()[1])
                 outcome = "outcome-%d" % err
             else:
                 outcome = "serialize"
             if res != bres:
-                key, what = "result-depends-on-locale/%s" % ("parse" if op == "LP" else "parse-incremental" if op == "LPC" else "serialize"), "under %s: %s ; in the C locale: %s" % (CONFIGS[cfg], res[:160], bres[:160])
+                key, what = "result-depends-on-locale/%s" % ("parse" if op == "LP" else "parse-incremental" if op == "LPC" else "parse-with-older-tokener" if op == "LPT" else "serialize"), "under %s: %s ; in the C locale: %s" % (CONFIGS[cfg], res[:160], bres[:160])
             elif not same:
                 key, what = "thread-locale-changed/" + outcome, "uselocale(NULL) differs after the call (%s)" % CONFIGS[cfg]
             elif not fmt or not sd:
@@ -142,6 +145,8 @@ def shard_fn(shard, nshards, seed, tier, exe, ntexts, ntrees):
             if key:
                 sh.violation("C14/" + key, what + " :: " + cmd[:120], rep)
             sh.count("%s.%s" % (CONFIGS[cfg].replace(" ", "_"), outcome))
+            if op == "LPT":
+                sh.count("parses_with_a_tokener_older_than_the_locale")
             sh.nontrivial("%d|%s" % (cfg, cmd))
         if lines[-1].split()[1] != "live=0":
             sh.violation("C14/leak", "blocks left under %s: %s" % (CONFIGS[cfg], lines[-1]), {"driver": "jcdrv", "script": cmds[:3]})
